@@ -39,6 +39,56 @@ PROPS = {
 }
 
 
+COMMON_ASSUME = [
+    "network, dialer and clock are simulated (FakeHost + gated message sender under testing/synctest)",
+    "peer ranks (XOR distance order to the key) are computed by the harness from sha256, independently of go-libp2p-kbucket / qpeerset",
+    "deliveries are released one at a time and the run is quiescent between them, so 'processed' = delivered while the search phase ran",
+]
+
+PROPS["C02"] = {
+    "exhaustive": [
+        {"spec": "HonestNet.tla", "cfg": "HonestNet_quick.cfg", "timeout": 600},
+        {"spec": "HonestNet.tla", "cfg": "HonestNet_full.cfg", "timeout": 600},
+        {"spec": "HonestNet.tla", "cfg": "HonestNet_k1.cfg", "timeout": 600},
+        {"spec": "HonestNet.tla", "cfg": "HonestNet_thorough.cfg", "tier": "thorough", "timeout": 3000},
+        {"spec": "HonestNet.tla", "cfg": "HonestNet_thorough3.cfg", "tier": "thorough", "timeout": 3000},
+        {"spec": "HonestNet.tla", "cfg": "HonestNet_neg.cfg", "expect": "violation", "timeout": 300},
+        {"spec": "Lookup.tla", "cfg": "Lookup_filter.cfg", "timeout": 900},
+        {"spec": "Lookup.tla", "cfg": "Lookup_neg_beta.cfg", "expect": "violation", "timeout": 300},
+    ],
+    "drivers": [dht_driver("TestLookupHonest"), dht_driver("TestLookupGCP")],
+    "assumptions": COMMON_ASSUME + ["the honest / k-bucket-complete assumption of clauses (a)(b) is enforced by the scenario generator (tables built from the real sha256 ids)"],
+    "explanation": "HonestNet.tla is model-checked for convergence on every k-bucket-complete network over a 3-bit (thorough: 4-bit) id space; real GetClosestPeers runs on generated honest networks and on arbitrary faulty ones are validated against DhtTrace.tla clauses C02 a-d.",
+}
+PROPS["C03"] = {
+    "exhaustive": [
+        {"spec": "Lookup.tla", "cfg": "Lookup_quick.cfg", "timeout": 900},
+        {"spec": "Lookup.tla", "cfg": "Lookup_neg_spawn.cfg", "expect": "violation", "timeout": 300},
+    ],
+    "drivers": [dht_driver("TestOpsAll")],
+    "assumptions": COMMON_ASSUME + ["'promptly' and 'bounded time' are judged in virtual time; background work is judged by a goroutine census of the synctest bubble 3 virtual minutes after the operation returned and again after Close"],
+    "explanation": "Deadlock freedom and termination of the lookup protocol are model-checked (Lookup.tla with fairness); every public routing operation of the real IpfsDHT is driven through failing / silent / lying peers, all delivery orders and cancellation points (small scopes) and validated against the C03 clauses of DhtTrace.tla (return, prompt cancel, channel closed, no panic, no background work left).",
+}
+PROPS["C04"] = {
+    "exhaustive": [],
+    "drivers": [dht_driver("TestOpsValue")],
+    "assumptions": COMMON_ASSUME + ["values are abstracted to (validity class, rank) by the harness validator"],
+    "explanation": "GetValue / SearchValue of the real IpfsDHT with valid, stale, invalid and mis-keyed records at responders and in the local store, every quorum, validated against C04 clauses.",
+}
+PROPS["C06"] = {
+    "exhaustive": [],
+    "drivers": [dht_driver("TestOpsPut"), dht_driver("TestOpsValue")],
+    "assumptions": COMMON_ASSUME,
+    "explanation": "PutValue / Provide / corrective puts of the real IpfsDHT; recipients and message content compared with the lookup result reconstructed by the trace spec.",
+}
+PROPS["C08"] = {
+    "exhaustive": [],
+    "drivers": [dht_driver("TestOpsProviders")],
+    "assumptions": COMMON_ASSUME,
+    "explanation": "FindProvidersAsync of the real IpfsDHT; yielded peers vs GET_PROVIDERS answers delivered, count cap, early stop, channel closure.",
+}
+
+
 def overlay_file(scratch, spec):
     return None
 
@@ -127,10 +177,97 @@ def mut_c03_late_after_cancel(run):
     return r
 
 
+def _op(run, *ops):
+    return run[0].get("op") in ops
+
+
+def mut_c04_invalid_emit(run):
+    if not _op(run, "searchvalue"):
+        return None
+    i = _find(run, "Emit")
+    if i < 0:
+        return None
+    r = copy.deepcopy(run)
+    r[i]["valid"] = False
+    return r
+
+
+def mut_c04_worse_final(run):
+    if not _op(run, "getvalue", "searchvalue") or any(ev["e"] == "Cancel" for ev in run):
+        return None
+    i = _find(run, "Return")
+    if i < 0 or run[i].get("err") != "" or run[i].get("rank", -1) < 1:
+        return None
+    r = copy.deepcopy(run)
+    r[i]["rank"] = 0
+    for ev in r:
+        if ev["e"] == "Emit":
+            ev["rank"] = min(ev["rank"], 0)
+    return r
+
+
+def mut_c06_missing_recipient(run):
+    if not _op(run, "putvalue", "provide") or any(ev["e"] == "Cancel" for ev in run):
+        return None
+    i = _find(run, "Return")
+    if i < 0 or run[i].get("err") != "":
+        return None
+    typ = "PUT_VALUE" if _op(run, "putvalue") else "ADD_PROVIDER"
+    victims = [ev["p"] for ev in run if ev["e"] == "Sent" and ev.get("typ") == typ]
+    if not victims:
+        return None
+    return [copy.deepcopy(ev) for ev in run if not (ev["e"] in ("Sent", "Deliver") and ev.get("typ") == typ and ev.get("p") == victims[0])]
+
+
+def mut_c06_foreign_provider(run):
+    if not _op(run, "provide"):
+        return None
+    for i, ev in enumerate(run):
+        if ev["e"] == "Sent" and ev.get("typ") == "ADD_PROVIDER":
+            r = copy.deepcopy(run)
+            r[i]["provs"] = [0, 3]
+            return r
+    return None
+
+
+def mut_c08_unnamed(run):
+    if not _op(run, "findprov"):
+        return None
+    i = _find(run, "Emit")
+    if i < 0:
+        return None
+    r = copy.deepcopy(run)
+    r[i]["p"] = 9999
+    return r
+
+
+def mut_c08_dup(run):
+    if not _op(run, "findprov"):
+        return None
+    i = _find(run, "Emit")
+    if i < 0:
+        return None
+    r = copy.deepcopy(run)
+    r.insert(i + 1, copy.deepcopy(r[i]))
+    return r
+
+
+def mut_c03_bg(run):
+    i = _find(run, "Bg")
+    if i < 0:
+        return None
+    r = copy.deepcopy(run)
+    r[i]["n"] = 1
+    return r
+
+
 MUTATIONS = {
     "C01": [mut_c01_unsorted, mut_c01_drop_nearest, mut_c01_resp_event],
     "C02": [mut_c02_unasked],
-    "C03": [mut_c03_noreturn, mut_c03_late_after_cancel],
+    "C03": [mut_c03_noreturn, mut_c03_late_after_cancel, mut_c03_bg],
+    "C04": [mut_c04_invalid_emit, mut_c04_worse_final],
+    "C06": [mut_c06_missing_recipient, mut_c06_foreign_provider],
+    "C08": [mut_c08_unnamed, mut_c08_dup],
 }
 
 
